@@ -1,10 +1,14 @@
-(* C16 -- property theorems only: statement + exact + Print Assumptions. *)
-From Coq Require Import List ZArith.
-From LJT Require Import gen.GenIccConst model.MarkerRT model.Icc model.CopyMarkers proofs.C16Consts.
+(* C16 -- header parameters and embedded metadata round-trip intact.
+   Property theorems only: statement + exact + Print Assumptions.
+   Models: model/Icc.v (jcicc.c, jdicc.c), model/MarkerRT.v (jcmarker.c, jcapimin.c, jdmarker.c,
+   jdapimin.c), model/CopyMarkers.v (transupp.c, tj3Transform); constants: gen/GenIccConst.v. *)
+From Coq Require Import List ZArith Bool Permutation.
+From LJT Require Import lib.Sweep gen.GenIccConst model.MarkerRT model.Icc model.CopyMarkers
+  proofs.C16Consts proofs.IccProofs proofs.IccRoundTrip proofs.MarkerProofs proofs.CopyProofs proofs.HeaderProofs.
 Import ListNotations.
 Local Open Scope Z_scope.
 
-(* the writer and the reader of the tree use the same marker code, identifier and layout *)
+(* ---- generated facts: writer and reader of the tree agree on code, identifier, layout, limits *)
 Theorem C16_constants_agree :
   W_ICC_MARKER = R_ICC_MARKER /\ W_ICC_OVERHEAD_LEN = R_ICC_OVERHEAD_LEN /\
   icc_sig_writer = icc_sig_reader /\
@@ -15,3 +19,254 @@ Theorem C16_constants_agree :
   M_APP14 = JPEG_APP0 + 14.
 Proof. exact consts_writer_reader_agree. Qed.
 Print Assumptions C16_constants_agree.
+
+Theorem C16_constants_lengths :
+  W_MAX_DATA_BYTES_IN_MARKER = W_MAX_BYTES_IN_MARKER - W_ICC_OVERHEAD_LEN /\
+  W_MAX_BYTES_IN_MARKER <= WRITE_MARKER_MAX_DATALEN /\
+  WRITE_MARKER_MAX_DATALEN = 65533 /\ W_MAX_DATA_BYTES_IN_MARKER = 65519 /\
+  0 < W_MAX_DATA_BYTES_IN_MARKER /\ R_MAX_SEQ_NO = 255 /\
+  WRITE_MARKER_MAX_DATALEN < COPY_SAVE_LIMIT /\ WRITE_MARKER_MAX_DATALEN < TJ_ICC_SAVE_LIMIT.
+Proof. exact consts_lengths. Qed.
+Print Assumptions C16_constants_lengths.
+
+Theorem C16_constants_identifiers :
+  jfif_sig_emit = jfif_sig_examine /\ jfif_sig_emit = jfif_sig_copy /\
+  adobe_sig_emit = adobe_sig_examine /\ adobe_sig_emit = adobe_sig_copy /\
+  JFIF_SEGMENT_LENGTH = APP0_DATA_LEN + 2 /\ ADOBE_SEGMENT_LENGTH = APP14_DATA_LEN + 2 /\
+  APP0_DATA_LEN <= APPN_DATA_LEN /\ APP14_DATA_LEN <= APPN_DATA_LEN.
+Proof. exact consts_sigs. Qed.
+Print Assumptions C16_constants_identifiers.
+
+(* ---- (1)+(2) ICC: every profile of 1 .. 255*65519 bytes is written as ceil(len/65519) APP2 segments
+   of at most 65533 data bytes, numbered 1..n with count n, and jpeg_read_icc_profile returns it
+   byte-identical from ANY marker list whose ICC markers are a permutation of those segments --
+   whatever other (non-ICC) markers are interleaved, whatever the malloc'ed buffer contained *)
+Theorem C16_icc_roundtrip : forall p, 1 <= Zlength p <= 255 * W_MAX_DATA_BYTES_IN_MARKER ->
+  exists segs,
+    write_icc p = Some segs /\
+    Z.of_nat (length segs) = icc_num_markers (Zlength p) /\ 1 <= Z.of_nat (length segs) <= 255 /\
+    Forall (fun s => fst s = W_ICC_MARKER /\ W_ICC_OVERHEAD_LEN < Zlength (snd s) <= W_MAX_BYTES_IN_MARKER) segs /\
+    well_numbered (Z.of_nat (length segs)) (markers_of segs) /\
+    concat (map icc_payload (markers_of segs)) = p /\
+    (forall junk ms, Permutation (filter marker_is_icc ms) (markers_of segs) -> read_icc_with junk ms = IccOk p).
+Proof. exact icc_roundtrip_all. Qed.
+Print Assumptions C16_icc_roundtrip.
+
+Theorem C16_icc_roundtrip_stream_order : forall p segs, 1 <= Zlength p <= 255 * W_MAX_DATA_BYTES_IN_MARKER ->
+  write_icc p = Some segs -> read_icc (markers_of segs) = IccOk p.
+Proof. exact icc_roundtrip. Qed.
+Print Assumptions C16_icc_roundtrip_stream_order.
+
+Theorem C16_icc_any_order : forall p segs ms, 1 <= Zlength p <= 255 * W_MAX_DATA_BYTES_IN_MARKER ->
+  write_icc p = Some segs -> Permutation ms (markers_of segs) -> read_icc ms = IccOk p.
+Proof. exact icc_permutation. Qed.
+Print Assumptions C16_icc_any_order.
+
+(* (2) in full generality: the result of jpeg_read_icc_profile (profile, "bogus", "absent") never
+   depends on the order of the marker list *)
+Theorem C16_icc_read_permutation_invariant : forall junk ms ms', Permutation ms ms' ->
+  read_icc_with junk ms = read_icc_with junk ms'.
+Proof. exact read_icc_permutation_invariant. Qed.
+Print Assumptions C16_icc_read_permutation_invariant.
+
+(* closed form of the reader: markers numbered 1..n with count n, in any order, with anything else
+   in between, give the concatenation of the payloads in sequence order *)
+Theorem C16_icc_read_closed_form : forall junk ms srt n,
+  Permutation (filter marker_is_icc ms) srt -> well_numbered n srt ->
+  concat (map icc_payload srt) <> [] ->
+  read_icc_with junk ms = IccOk (concat (map icc_payload srt)).
+Proof. exact read_icc_closed. Qed.
+Print Assumptions C16_icc_read_closed_form.
+
+(* ---- (3) damaged numberings: duplicate, inconsistent count, sequence number 0 or > count, missing *)
+Theorem C16_icc_rejects_bad : forall junk ms,
+  let icc := filter marker_is_icc ms in
+  icc <> [] ->
+  ( ~ NoDup (map icc_seq icc)
+    \/ (exists a b, In a icc /\ In b icc /\ icc_count a <> icc_count b)
+    \/ (exists a, In a icc /\ (icc_seq a <= 0 \/ icc_count a < icc_seq a))
+    \/ (exists a k, In a icc /\ 1 <= k <= icc_count a /\ ~ In k (map icc_seq icc)) )
+  -> read_icc_with junk ms = IccBogus.
+Proof. exact icc_rejects_bad. Qed.
+Print Assumptions C16_icc_rejects_bad.
+
+Theorem C16_icc_ok_implies_wellformed : forall junk ms p, read_icc_with junk ms = IccOk p ->
+  let icc := filter marker_is_icc ms in
+  exists n, 1 <= n /\
+    Forall (fun m => icc_count m = n /\ 1 <= icc_seq m <= n) icc /\
+    NoDup (map icc_seq icc) /\
+    (forall k, 1 <= k <= n -> In k (map icc_seq icc)) /\ p <> [].
+Proof. exact read_icc_ok_inv. Qed.
+Print Assumptions C16_icc_ok_implies_wellformed.
+
+Theorem C16_icc_absent_iff_no_icc_marker : forall junk ms,
+  read_icc_with junk ms = IccAbsent <-> filter marker_is_icc ms = [].
+Proof. exact read_icc_absent_iff. Qed.
+Print Assumptions C16_icc_absent_iff_no_icc_marker.
+
+(* boundary fact: one more segment than 255 makes the count byte wrap to 0; the stream is refused *)
+Theorem C16_icc_256_segments_not_recovered : forall p segs,
+  255 * W_MAX_DATA_BYTES_IN_MARKER < Zlength p <= 256 * W_MAX_DATA_BYTES_IN_MARKER ->
+  write_icc p = Some segs -> read_icc (markers_of segs) = IccBogus.
+Proof. exact icc_too_long_not_recovered. Qed.
+Print Assumptions C16_icc_256_segments_not_recovered.
+
+(* ---- (4) COM / APPn markers *)
+Theorem C16_marker_writer_limit : forall code data,
+  (Zlength data <= WRITE_MARKER_MAX_DATALEN ->
+   write_marker (code, data) = Some (emit_marker code ++ emit_2bytes (Zlength data + 2) ++ map byte_of data)) /\
+  (WRITE_MARKER_MAX_DATALEN < Zlength data -> write_marker (code, data) = None).
+Proof. intros code data. split; [exact (write_marker_ok code data) | exact (write_marker_too_long code data)]. Qed.
+Print Assumptions C16_marker_writer_limit.
+
+(* any run of COM/APPn segments of at most 65533 data bytes, read back under any limits c: saved data
+   = first min(len, limit) bytes, original_length = len, list order = stream order, limit 0 = dropped *)
+Theorem C16_marker_roundtrip : forall c segs, (forall k, 0 <= c k) -> Forall seg_ok segs ->
+  forall rest, stops rest ->
+  exists bytes, write_markers segs = Some bytes /\
+    forall fuel h acc, (length segs < fuel)%nat ->
+      exists h', read_app_markers fuel c h acc (bytes ++ rest)
+                 = Some (h', acc ++ flat_map (saved_under c) segs, rest).
+Proof. exact markers_roundtrip. Qed.
+Print Assumptions C16_marker_roundtrip.
+
+Theorem C16_save_limits_wellformed : forall c code limit, cfg_wf c -> 0 <= limit ->
+  cfg_wf (jpeg_save_markers c code limit).
+Proof. exact jpeg_save_markers_wf. Qed.
+Print Assumptions C16_save_limits_wellformed.
+
+(* ---- (5) header parameters *)
+Theorem C16_sof_roundtrip : forall code f, frame_ok f ->
+  exists body, emit_sof code f = Some (emit_marker code ++ body) /\
+               forall rest, get_sof (body ++ rest) = Some (f, rest).
+Proof. exact sof_roundtrip. Qed.
+Print Assumptions C16_sof_roundtrip.
+
+Theorem C16_sof_dimension_limit : forall code f, 65535 < f_height f \/ 65535 < f_width f -> emit_sof code f = None.
+Proof. exact sof_too_big. Qed.
+Print Assumptions C16_sof_dimension_limit.
+
+Theorem C16_sof_code_flags : forall arith prog lossless baseline, (lossless = true -> arith = false /\ prog = false) ->
+  sof_flags (sof_code arith prog lossless baseline) = Some (prog, lossless, arith).
+Proof. exact sof_code_roundtrip. Qed.
+Print Assumptions C16_sof_code_flags.
+
+Theorem C16_sos_roundtrip : forall keep lossless ids s, NoDup ids -> Forall is_byte ids -> scan_ok ids s ->
+  exists body, emit_sos_with keep lossless ids s = emit_marker M_SOS ++ body /\
+               forall rest, get_sos ids (body ++ rest) = Some (scan_seen keep lossless s, rest).
+Proof. exact sos_roundtrip. Qed.
+Print Assumptions C16_sos_roundtrip.
+
+(* lossless: Ss = predictor selection value and Al = point transform come back *)
+Theorem C16_sos_lossless_psv_pt : forall keep ids s rest, NoDup ids -> Forall is_byte ids -> scan_ok ids s ->
+  exists body s', emit_sos_with keep true ids s = emit_marker M_SOS ++ body /\
+                  get_sos ids (body ++ rest) = Some (s', rest) /\ s_Ss s' = s_Ss s /\ s_Al s' = s_Al s /\
+                  s_Se s' = s_Se s /\ s_Ah s' = s_Ah s /\ map sc_ci (s_comps s') = map sc_ci (s_comps s).
+Proof. exact sos_lossless_psv_pt. Qed.
+Print Assumptions C16_sos_lossless_psv_pt.
+
+(* the DC table selector of a lossless scan: refuted on a tree whose emit_sos zeroes Td when Ss <> 0,
+   proved on a tree that keeps it (the generated fact decides which of the two is not vacuous) *)
+Theorem C16_sos_lossless_td_refuted : EMIT_SOS_TD_KEPT_IN_LOSSLESS = 0 ->
+  exists ids s, NoDup ids /\ Forall is_byte ids /\ scan_ok ids s /\ lossless_scan s /\
+    exists s', get_sos ids (skipn 2 (emit_sos true ids s)) = Some (s', []) /\
+               map sc_dc (s_comps s') <> map sc_dc (s_comps s).
+Proof. exact sos_lossless_td_refuted. Qed.
+Print Assumptions C16_sos_lossless_td_refuted.
+
+Theorem C16_sos_lossless_td_kept : EMIT_SOS_TD_KEPT_IN_LOSSLESS = 1 ->
+  forall ids s rest, NoDup ids -> Forall is_byte ids -> scan_ok ids s ->
+  exists body, emit_sos true ids s = emit_marker M_SOS ++ body /\
+    get_sos ids (body ++ rest) =
+    Some (mkScan (map (fun c => mkScomp (sc_ci c) (sc_dc c) (sos_ta s c)) (s_comps s)) (s_Ss s) (s_Se s) (s_Ah s) (s_Al s), rest).
+Proof. exact sos_lossless_td_kept. Qed.
+Print Assumptions C16_sos_lossless_td_kept.
+
+Theorem C16_dri_roundtrip : forall n rest, 0 <= n < 65536 ->
+  exists body, emit_dri n = emit_marker M_DRI ++ body /\ get_dri (body ++ rest) = Some (n, rest).
+Proof. exact dri_roundtrip. Qed.
+Print Assumptions C16_dri_roundtrip.
+
+(* JFIF version, density and units, whether or not APP0 markers are being saved *)
+Theorem C16_jfif_roundtrip : forall c j h acc rest, jfif_ok j -> cfg_wf c ->
+  emit_jfif_app0 j = emit_marker M_APP0 ++ emit_2bytes JFIF_SEGMENT_LENGTH ++ jfif_data j /\
+  exists acc', process_app c M_APP0 h acc (emit_2bytes JFIF_SEGMENT_LENGTH ++ jfif_data j ++ rest)
+               = Some (hinfo_jfif h j, acc', rest).
+Proof. exact jfif_roundtrip. Qed.
+Print Assumptions C16_jfif_roundtrip.
+
+Theorem C16_file_header_roundtrip : forall c cs j rest, jfif_ok j -> cfg_wf c -> stops rest ->
+  forall fuel, (2 <= fuel)%nat ->
+  exists acc, read_app_markers fuel c hinfo_init [] (skipn 2 (emit_file_header cs j) ++ rest)
+              = Some (header_info cs j, acc, rest).
+Proof. exact file_header_roundtrip. Qed.
+Print Assumptions C16_file_header_roundtrip.
+
+Theorem C16_colorspace_roundtrip : forall cs j lossless ids, cs <> CS_UNKNOWN ->
+  decide_colorspace (ncomp_of cs) (header_info cs j) lossless ids = cs.
+Proof. exact colorspace_roundtrip. Qed.
+Print Assumptions C16_colorspace_roundtrip.
+
+Theorem C16_density_roundtrip : forall cs j, writes_jfif cs = true ->
+  let h := header_info cs j in
+  h_saw_jfif h = true /\ h_unit h = j_unit j /\ h_xd h = j_xd j /\ h_yd h = j_yd j /\
+  h_major h = j_major j /\ h_minor h = j_minor j.
+Proof. exact density_roundtrip. Qed.
+Print Assumptions C16_density_roundtrip.
+
+(* ---- (6) copy options *)
+Theorem C16_copy_policy : forall opt wj wa ms,
+  copy_execute opt wj wa ms = map seg_of (filter (policy opt wj wa) ms).
+Proof. exact copy_policy. Qed.
+Print Assumptions C16_copy_policy.
+
+(* T1-finite: 5 options x 256 marker codes *)
+Theorem C16_copy_setup : forall opt code, 0 <= opt < 5 -> 0 <= code < 256 ->
+  copy_setup opt cfg_init code = if selected opt code then COPY_SAVE_LIMIT else 0.
+Proof. exact copy_setup_spec. Qed.
+Print Assumptions C16_copy_setup.
+
+Theorem C16_copy_end_to_end : forall opt wj wa segs rest, 0 <= opt < 5 ->
+  Forall seg_ok segs -> Forall (fun s => Forall is_byte (snd s)) segs -> stops rest ->
+  exists bytes, write_markers segs = Some bytes /\
+    forall fuel, (length segs < fuel)%nat ->
+      copy_pipeline opt opt wj wa fuel (bytes ++ rest)
+      = Some (filter (fun s => policy opt wj wa (saved_of s)) segs).
+Proof. exact copy_end_to_end. Qed.
+Print Assumptions C16_copy_end_to_end.
+
+(* tj3Transform + tj3SetICCProfile: refuted when the instance profile is written whatever the option *)
+Theorem C16_tj_transform_double_icc_refuted : TJ_TRANSFORM_ICC_UNCONDITIONAL = 1 ->
+  exists p q segs, write_icc p = Some segs /\
+    read_icc (markers_of segs) = IccOk p /\
+    read_icc (markers_of (tj_transform_extras JCOPYOPT_ALL false true false (markers_of segs) q)) = IccBogus.
+Proof. exact tj_transform_double_icc_refuted. Qed.
+Print Assumptions C16_tj_transform_double_icc_refuted.
+
+Theorem C16_tj_transform_instance_icc : forall opt wj wa src q segs, copies_app2 opt = false ->
+  Forall (fun m => marker_is_icc m = false) src -> q <> [] -> write_icc q = Some segs ->
+  filter marker_is_icc (markers_of (tj_transform_extras opt false wj wa src q)) = filter marker_is_icc (markers_of segs).
+Proof. exact tj_transform_instance_icc. Qed.
+Print Assumptions C16_tj_transform_instance_icc.
+
+(* ---- non-vacuity: the hypotheses above are satisfiable by concrete non-trivial values *)
+Example C16_ex_icc_two_segments : ex_two_check = true.
+Proof. exact ex_two_check_true. Qed.
+Example C16_ex_icc_bad :
+  let a := mkSaved M_APP2 17 (icc_sig_writer ++ [1; 2; 9; 9; 9]) in
+  let b := mkSaved M_APP2 15 (icc_sig_writer ++ [1; 2; 7]) in
+  filter marker_is_icc [a; b] <> [] /\ ~ NoDup (map icc_seq (filter marker_is_icc [a; b])) /\
+  read_icc [a; b] = IccBogus.
+Proof. exact ex_icc_bad. Qed.
+Example C16_ex_markers :
+  Forall seg_ok [(M_COM, [104; 105]); (M_APP0 + 1, [1; 2; 3; 4; 5])] /\ stops [255; M_DQT; 0; 2] /\
+  cfg_wf (jpeg_save_markers (jpeg_save_markers cfg_init M_COM 1) (M_APP0 + 1) 65535).
+Proof. exact ex_markers. Qed.
+Example C16_ex_frame : frame_ok (mkFrame 8 65535 65535 [mkComp 1 2 2 0; mkComp 2 1 1 1; mkComp 3 1 1 1]).
+Proof. exact ex_frame. Qed.
+Example C16_ex_scan : NoDup [1; 2; 3] /\ Forall is_byte [1; 2; 3] /\
+  scan_ok [1; 2; 3] (mkScan [mkScomp 0 0 0; mkScomp 1 1 1; mkScomp 2 1 1] 0 63 0 0) /\
+  scan_ok [1; 2; 3] (mkScan [mkScomp 0 0 0; mkScomp 1 0 0; mkScomp 2 0 0] 7 0 0 15).
+Proof. exact ex_scan. Qed.
+Example C16_ex_jfif : jfif_ok (mkJfif 1 2 1 300 65535).
+Proof. exact ex_jfif. Qed.
